@@ -221,6 +221,11 @@ func builderBuf(in *Interp, recv Value) FieldRef {
 func (in *Interp) builderAppend(recv Value, bs []*Term) {
 	ref := builderBuf(in, recv)
 	sl := ref.Load().(SliceV)
+	if lim := in.allocLimit() * 4; sl.Len+len(bs) > lim {
+		_, model := in.query()
+		in.Events = append(in.Events, Event{Kind: "cost", Msg: fmt.Sprintf("strings.Builder grows beyond %d bytes (result size not bounded by the harness bounds)", lim), Where: in.where(), Model: model, Stack: in.stackNames()})
+		in.end("alloc", "builder too large")
+	}
 	vals := make([]Value, len(bs))
 	for i, b := range bs {
 		vals[i] = b
